@@ -1,0 +1,33 @@
+// Copyright Amazon.com, Inc. or its affiliates. All Rights Reserved.
+// SPDX-License-Identifier: Apache-2.0
+
+//! Verification-only hook slot (`--cfg metrique_verif`). Not part of the public API.
+//!
+//! Code under verification calls [`point`] at places between critical sections. By default this
+//! does nothing; a verification harness may [`install`] a function that is then called with the
+//! point's name (to record a trace, or to perturb the schedule by yielding/sleeping).
+
+use std::sync::atomic::{AtomicPtr, Ordering};
+
+static HOOK: AtomicPtr<()> = AtomicPtr::new(std::ptr::null_mut());
+
+/// Install the function called at every hook point (process-wide).
+pub fn install(f: fn(&'static str)) {
+    HOOK.store(f as *mut (), Ordering::Release);
+}
+
+/// Remove the installed function.
+pub fn uninstall() {
+    HOOK.store(std::ptr::null_mut(), Ordering::Release);
+}
+
+/// A named point in the code under verification. No-op until a function is installed.
+#[inline]
+pub fn point(id: &'static str) {
+    let p = HOOK.load(Ordering::Acquire);
+    if !p.is_null() {
+        // SAFETY: the only non-null values ever stored are `fn(&'static str)` pointers
+        let f: fn(&'static str) = unsafe { std::mem::transmute::<*mut (), fn(&'static str)>(p) };
+        f(id)
+    }
+}
